@@ -91,9 +91,13 @@ inductive ValidRes where
   | ok | errUnset | err
   deriving DecidableEq, Repr
 
+/-- One iteration of the loop of `WFN.Valid` returns no error: the string is
+    validated whatever the kind, and a set value is not the empty string. -/
+def attrOk (a : Value) : Bool := validate a.v && !(a.kind == .set && a.v.isEmpty)
+
 /-- `WFN.Valid`. -/
 def valid (w : WFN) : ValidRes :=
-  if !(w.all fun a => validate a.v) then .err
+  if !(w.all attrOk) then .err
   else if w.all (fun a => a.kind == .unset) then .errUnset
   else match w.head? with
     | some p => if p.kind == .set && !(p.v == [97] || p.v == [111] || p.v == [104]) then .err else .ok
